@@ -76,7 +76,9 @@ func (fr *Frame) exec(in ssa.Instruction, st *State, g string) {
 			} else if sc := x.Common().StaticCallee(); sc != nil {
 				ck = funcKey(sc)
 			}
+			hintCallRes[fr] = res // ext_mapiter.go: `hint after` clauses may name the results of the call (callresult<i>, callerr)
 			fr.applyHints("after", ck, x.Block(), st, g, nil)
+			delete(hintCallRes, fr)
 		}
 		if x.Type() != nil {
 			if tup, ok := x.Type().(*types.Tuple); ok {
@@ -810,6 +812,7 @@ func (fr *Frame) applyHints(where, calleeKey string, b *ssa.BasicBlock, st *Stat
 		if res != nil {
 			fr.bindResults(env, res)
 		}
+		bindHintCallResults(fr, env)
 		t, err := env.evalBool(h.Clause.E)
 		fr.curLocals, fr.curLocalAddrs = nil, nil
 		if err != nil && where == "return" {
